@@ -153,4 +153,3 @@ End Parser.
 
 Arguments header {NM}. Arguments elems {NM}. Arguments meta {NM}.
 Arguments ENode {NM}. Arguments EErr {NM}.
-Arguments BadSyntax {_}. Arguments Conversion {_}.
